@@ -17,6 +17,7 @@ import JsonV.Lemmas.PointerStack
 import JsonV.Lemmas.PointerUtf8
 import JsonV.Lemmas.PointerSim
 import JsonV.Lemmas.PointerMachine
+import JsonV.Lemmas.PositionTok
 
 namespace JsonV.Props.C16
 open JsonV JsonV.Model JsonV.Model.Pointer JsonV.Spec.Pointer JsonV.Lemmas.Pointer
@@ -162,5 +163,62 @@ example : AState.init.run [.beginObj, .str [0x61, 0x2f, 0x62], .beginArr, .scala
     some ⟨[⟨false, 2⟩, ⟨true, 2⟩, ⟨false, 1⟩], [[0x61, 0x2f, 0x62]]⟩ := by decide
 example : pointerOf (-1) [.beginObj, .str [0x61, 0x2f, 0x62], .beginArr, .scalar, .scalar] =
     some [.name [0x61, 0x2f, 0x62], .index 1] := by decide
+
+/-! ### Positions on the token-path model (slice C01's Model/TokenLoop.lean) -/
+
+section Positions
+open JsonV.Model.TokenLoop JsonV.Model.Validate JsonV.Model.Wire JsonV.Lemmas.Position JsonV.Lemmas.StateRefine
+open JsonV.Spec.PDA (Kind Viable)
+
+/-- **index_spec**: after `k` successful `ReadToken` calls on `b` (fresh decoder) the machine is the one reached by the
+`k` token kinds read; they form a viable token sequence, and `StackDepth()` / `StackIndex(i)` read off the packed
+machine are those of the grammar frames computed from that history (outermost first; kind 0 at level 0). -/
+theorem index_spec (o : VOpts) (k : Nat) (hk : k < 2^61) (b : Bytes) (st : TState) (off : Nat) (rest : Bytes)
+    (h : reads o k {} b 0 = some (st, off, rest)) :
+    ∃ ks fs, ks.length = k ∧ Spec.PDA.run maxNestingDepth Spec.PDA.init ks = some fs ∧ Viable maxNestingDepth ks ∧
+      stackDepth st.m = Spec.PDA.depth fs ∧ (∀ i, stackIndex st.m i = frameIndex fs i) ∧
+      st.m.depth + ks.countP Kind.closing = 1 + ks.countP Kind.opening :=
+  (index_offset_spec o k hk b st off rest h).1
+
+/-- **offset_spec**: `InputOffset` after `k` successful reads is the length of the consumed prefix — the unread input
+is exactly `b.drop off`. -/
+theorem offset_spec (o : VOpts) (k : Nat) (hk : k < 2^61) (b : Bytes) (st : TState) (off : Nat) (rest : Bytes)
+    (h : reads o k {} b 0 = some (st, off, rest)) :
+    off ≤ b.length ∧ rest = b.drop off ∧ b = b.take off ++ rest ∧ (b.take off).length = off :=
+  (index_offset_spec o k hk b st off rest h).2
+
+/-- **err_viable (partial)**: when `ReadToken` fails after `k` tokens with relative offset `kk`, the tokens read are a
+viable token sequence and `b[off : off+kk]` holds only blanks and at most one separator — except when the error comes
+out of the LEXER of the next token (second alternative: it lies `n` bytes inside that token). -/
+theorem err_viable_partial (o : VOpts) (k : Nat) (hk : k < 2^61) (b : Bytes) (st : TState) (off : Nat) (rest : Bytes)
+    (h : reads o k {} b 0 = some (st, off, rest)) (kk : Nat) (e : Err) (herr : readToken o st rest = .err kk e) :
+    (∃ ks, ks.length = k ∧ Viable maxNestingDepth ks ∧ smRun maxNestingDepth Machine.init ks = .ok st.m) ∧
+    b.take (off + kk) = b.take off ++ (b.drop off).take kk ∧
+    (Blank ((b.drop off).take kk) ∨
+      ∃ pos n, Blank ((b.drop off).take pos) ∧ lexer o (b.drop (off + pos)) = some (n, e) ∧ e ≠ .ok ∧ kk = pos + n) :=
+  Lemmas.Position.err_viable_partial o k hk b st off rest h kk e herr
+
+/-- The excluded class is a real counterexample ON THE MODEL (finding F2 / D13, "lexed before checked"): on `{t` the
+token path reports offset 2 (unexpected EOF inside `t…`), on `{ f}` offset 3, although `{` followed by a literal is
+not a viable token sequence — the text stops being viable at offsets 1 and 2, where the value path reports it; a
+complete literal in the same position IS reported at its start. -/
+theorem f2_counterexample :
+    tokens {} [0x7b, 0x74] = (0, 2, .eof) ∧ validText {} [0x7b, 0x74] = (1, .invalidChar) ∧
+    tokens {} [0x7b, 0x20, 0x66, 0x7d] = (0, 3, .invalidChar) ∧ validText {} [0x7b, 0x20, 0x66, 0x7d] = (2, .invalidChar) ∧
+    tokens {} [0x7b, 0x74, 0x72, 0x75, 0x65] = (0, 1, .nonStringName) ∧
+    ¬ Viable maxNestingDepth [.beginObj, .lit] := by
+  refine ⟨by decide, by decide +kernel, by decide, by decide +kernel, by decide, by decide⟩
+
+/-- NOT PROVED (lexical errors in VALUE position): the part of a token before the lexer's error offset can be completed
+to a token of the same kind, so that together with `err_viable_partial` the bytes before `ByteOffset` are a viable
+prefix of JSON at byte level.  Checked by the harness tracker on mutated texts. -/
+def err_viable_lexical_full : Prop :=
+  ∀ (o : VOpts) (r : Bytes) (n : Nat) (e : Err), lexer o r = some (n, e) → e ≠ .ok → e ≠ .fuel → e ≠ .bug →
+    ∃ ext m, lexer o (r.take n ++ ext) = some (m, .ok) ∧ n ≤ m
+
+example : (reads {} 3 {} [0x7b, 0x22, 0x61, 0x22, 0x3a, 0x5b, 0x5d] 0).map (fun x => (x.2.1, stackDepth x.1.m, stackIndex x.1.m 1)) =
+    some (6, 2, some (0x7b, 2)) := by decide
+
+end Positions
 
 end JsonV.Props.C16
